@@ -41,7 +41,9 @@ Pow(b, e) == IF e = 0 THEN 1 ELSE b * Pow(b, e - 1)
 NInputs(t, k) == FoldSet(LAMBDA e, acc : acc + Pow(t, e), 0, 0..k)
 KOf(i) == LET t == Cardinality(DeclTerms(G(i))) IN
           IF t = 0 THEN 0 ELSE CHOOSE k \in 0..KMax : NInputs(t, k) <= Limit /\ (k = KMax \/ NInputs(t, k + 1) > Limit)
-Inputs(i) == UNION {[1..n -> DeclTerms(G(i))] : n \in 0..KOf(i)}
+\* every terminal string up to the bound, plus the longer inputs the harness supplies
+\* (random sentences of the grammar and single-token mutations of them)
+Inputs(i) == UNION {[1..n -> DeclTerms(G(i))] : n \in 0..KOf(i)} \cup SeqRange(Obs[i].extra)
 
 An == TLCEval([i \in DOMAIN Obs |-> IF Ok(i)
          THEN TLCEval([order |-> StateOrder(G(i), States0(G(i))), def |-> LADef(G(i))]) ELSE <<>>])
@@ -77,6 +79,7 @@ SpecTabOK     == (CFg /\ c = InitCfg) =>
                     /\ r.status = e.status /\ r.pos = e.pos
                     /\ r.status = "accept" => SoundCfg(G(g), input, r)
 C06_NoDiverge == CFg => c.status # "diverge"
+C06_NoFalseAccept == c.status = "accept" => ERef.status = "accept"
 \* C04 at behaviour level: on a grammar whose conflicts are all decided by the
 \* rules of C04, the recorded table parses every input exactly as the
 \* specification's table (built with CellAct) does: same outcome, same
